@@ -9,7 +9,8 @@ Tier   == IOEnv.VF_TIER
 OutDir == IOEnv.VF_OUT
 Thorough == Tier = "thorough"
 
-F(part, ty, n, tpl) == [part |-> part, ty |-> ty, n |-> n, tpl |-> tpl]
+F(part, ty, n, tpl) == [part |-> part, ty |-> ty, n |-> n, tpl |-> tpl, nm |-> ""]
+FN(part, ty, n, tpl, nm) == [part |-> part, ty |-> ty, n |-> n, tpl |-> tpl, nm |-> nm]
 NoDfl == [on |-> 0, zz |-> ANY, pbsb |-> <<>>, idp |-> <<>>]
 Dfl(zz) == [on |-> 1, zz |-> zz, pbsb |-> <<181, 9>>, idp |-> <<14>>]
 PBSB == <<181, 5>>
@@ -31,7 +32,11 @@ Concrete(p) == [k \in 1..Len(p) |-> IF p[k] = -1 THEN 7 ELSE p[k]]     \* a tele
 
 (* ------------------------------ non-chained ------------------------------ *)
 FieldLists ==
-  {<<>>,
+  {<<FN("m", "UCH", 1, 0, "sel"), FN("s", "UCH", 1, 0, "val"), FN("s", "UCH", 1, 0, "val"), FN("s", "UCH", 1, 0, "other")>>,
+   <<FN("m", "UCH", 1, 0, "val"), FN("m", "HEX", 2, 0, "x"), FN("s", "IGN", 1, 0, "val"), FN("s", "HEX", 2, 0, "val"),
+     FN("s", "UCH", 1, 0, "x"), FN("s", "UCH", 1, 1, "val")>>,
+   <<FN("", "UCH", 1, 0, "a"), FN("", "UCH", 1, 0, "a"), FN("", "HEX", 2, 0, "b")>>,
+   <<>>,
    <<F("", "UCH", 1, 0)>>,
    <<F("m", "UCH", 1, 0), F("s", "HEX", 2, 0)>>,
    <<F("", "HEX", 2, 0), F("", "IGN", 1, 0), F("", "UCH", 1, 0)>>,
@@ -55,6 +60,8 @@ BoundaryDefs ==
          : id \in IdsN}
 
 OpB(part, qq, dst, mvals) == <<"B", part, qq, dst, mvals>>
+(* read every field back individually: by name, by name and index, by overall index, and a few that do not exist *)
+SelOps(d) == LET sq == SetToSeq(Selections(d)) IN [k \in 1..Len(sq) |-> <<"Q", sq[k][1], sq[k][2]>>]
 (* operations on message k (ZZ number k of the definition): two build/find/answer/decode rounds and a telegram seen on the bus *)
 NOpsFor(d, k) ==
   LET zzs == EffZzs(d)
@@ -63,8 +70,9 @@ NOpsFor(d, k) ==
       dst == IF tmpl THEN 21 ELSE ANY
       ans(seed) == IF MasterDst(d) THEN <<>> ELSE Slave(SBytes(d, seed))
   IN <<<<"M", k>>,
-       OpB(0, 49, dst, MVals(d, 1)), <<"F", IF tmpl THEN 1 ELSE 0>>, <<"R", 0, ans(1)>>, <<"D">>,
-       <<"T", 3>>,
+       OpB(0, 49, dst, MVals(d, 1)), <<"F", IF tmpl THEN 1 ELSE 0>>, <<"R", 0, ans(1)>>, <<"D">>>>
+     \o SelOps(d) \o
+     <<<<"T", 3>>,
        OpB(0, 49, dst, MVals(d, 2)), <<"F", IF tmpl THEN 1 ELSE 0>>, <<"R", 0, ans(2)>>, <<"D">>,
        <<"S", Concrete(Build(d, 16, zz, MVals(d, 3))), ans(1)>>,
        <<"D">>>>
@@ -140,7 +148,8 @@ ChainCases(dir, pk) ==
                   id == [i \in 1..n |-> i]
                   rev == [i \in 1..n |-> n + 1 - i]
                   g(x) == [i \in 1..(n - 1) |-> x]
-              IN {[def |-> d, ops |-> <<<<"M", k>>>> \o ActiveRound(d, 1, 1, g(1), ANY) \o <<<<"T", 50>>>> \o ActiveRound(d, 1, 2, g(16), ANY)]
+              IN {[def |-> d, ops |-> <<<<"M", k>>>> \o ActiveRound(d, 1, 1, g(1), ANY) \o <<<<"T", 50>>>> \o ActiveRound(d, 1, 2, g(16), ANY)
+                                           \o SelOps(d)]
                     : k \in 0..(Len(EffZzs(d)) - 1)}
                  \cup {[def |-> d, ops |-> <<<<"M", 0>>>> \o SeenRound(d, rev, 1, g(1), zz) \o <<<<"T", 50>>>> \o SeenRound(d, id, 2, g(0), zz)
                                            \o <<<<"T", 1>>>> \o SeenRound(d, rev, 3, g(16), zz)]}
